@@ -1,5 +1,258 @@
-import NavisModel.Model.Flow
+import NavisModel.Proofs.FlowLemmas
+/-!
+# C17 — morphometrics obey their defining recurrences and path counts
+
+Models: `Model/Prune.lean` (Strahler: `strahlerRule`, `strahlerRaw`, `strahler`) and `Model/Flow.lean`
+(distal counts, flow centralities, segregation index, tortuosity).  `WF t` is the rank form of
+well-formedness (DESIGN §2.4).  Synapses are lists of node ids, one entry per synapse.
+
+What is *not* proved here (kept visible):
+* `segment_lengths_sum_to_cable` is C05's `small_segments_lengths_sum_to_cable`.
+* The segregation index is real valued (logarithms); only the cases in which its value is forced
+  (0 and 1) are theorems, for every entropy function `H` that is non-zero on (0,1)
+  (`segregation_bounds_partial`).  The general bound `0 ≤ index ≤ 1` needs concavity of the binary
+  entropy and is only tested.
+-/
 namespace Navis.Props.C17
 open Navis.Forest Navis.Flow
-theorem placeholder : (1 : Nat) = 1 := rfl
+
+/-! ### Strahler index -/
+
+/-- **Fuel independence**: the height of a well-formed forest is at most `|t|`, so the structural
+recurrence evaluated with any fuel `≥ |t|` is the same function. -/
+theorem strahler_fuel_independent (t : Table) (hw : WF t) (g : Bool) (ign : List Int) (i : Int) (hi : i ∈ ids t)
+    (f : Nat) (hf : t.length ≤ f) :
+    strahlerRaw t g ign f i = strahlerRaw t g ign (t.length + 1) i :=
+  strahlerRaw_fuel hw g ign hi f hf
+
+/-- **The Strahler recurrence holds at every node, roots included**: the index of a node is the rule
+applied to its children's indices (no children ↦ 1; one child ↦ that child's index; a fork ↦ the
+maximum, plus one when it occurs at least twice; `greedy` ↦ the sum). -/
+theorem strahler_recurrence (t : Table) (hw : WF t) (g : Bool) (i : Int) (hi : i ∈ ids t) :
+    strahler t g [] i = strahlerRule g ((children t i).map (strahler t g [])) := by
+  have e : strahler t g [] = strahlerRaw t g [] (t.length + 1) := funext (strahler_nil t g)
+  rw [e]
+  exact strahlerRaw_rec_nil hw g hi
+
+/-- The three cases of the rule, spelled out. -/
+theorem strahler_rule_cases (g : Bool) :
+    strahlerRule g [] = 1 ∧ (∀ c, strahlerRule g [c] = c) ∧
+    (∀ c1 c2 cs, strahlerRule true (c1 :: c2 :: cs) = (c1 :: c2 :: cs).sum) ∧
+    (∀ c1 c2 cs, strahlerRule false (c1 :: c2 :: cs) =
+      (if (c1 :: c2 :: cs).count (maxList (c1 :: c2 :: cs)) ≥ 2 then maxList (c1 :: c2 :: cs) + 1
+       else maxList (c1 :: c2 :: cs))) :=
+  ⟨rfl, fun _ => rfl, strahlerRule_greedy, strahlerRule_standard⟩
+
+theorem strahler_ge_one (t : Table) (hw : WF t) (g : Bool) (i : Int) (hi : i ∈ ids t) : 1 ≤ strahler t g [] i := by
+  rw [strahler_nil]; exact strahlerRaw_ge_one hw g i hi
+
+/-- A parent's index is at least each child's (both methods). -/
+theorem strahler_monotone (t : Table) (hw : WF t) (g : Bool) (i c : Int) (hi : i ∈ ids t) (hc : c ∈ children t i) :
+    strahler t g [] c ≤ strahler t g [] i := by
+  rw [strahler_nil, strahler_nil]; exact strahlerRaw_child_le hw g hi hc
+
+/-- **Meaning of the checker run on navis' column**: a column satisfies the recurrence at every row
+iff it is the model's Strahler index (the recurrence has exactly one solution). -/
+theorem strahler_checker_sound (t : Table) (hw : WF t) (g : Bool) (v : Int → Nat) :
+    strahlerOKB t g v = true ↔ ∀ i ∈ ids t, v i = strahler t g [] i := by
+  constructor
+  · intro h i hi
+    rw [strahler_nil]; exact strahlerOKB_unique hw g v h i hi
+  · intro h
+    have hc := strahlerOKB_complete hw g
+    unfold strahlerOKB at hc ⊢
+    rw [List.all_eq_true] at hc ⊢
+    intro r hr
+    have := hc r hr
+    simp only [beq_iff_eq] at this ⊢
+    rw [h r.id (mem_ids_of_mem hr), strahler_nil, this]
+    congr 1
+    apply List.map_congr_left
+    intro c hcm
+    rw [h c (child_facts hw (mem_ids_of_mem hr) hcm).1, strahler_nil]
+
+/-- **Ignored twigs take their parent branch's index**: every node `i` of the unbranched chain that
+ends in an ignored leaf `l` gets the (raw) index of the first branch point or root `s` above `l`; an
+ignored leaf contributes 0 to that branch; nodes not on an ignored twig keep the raw index. -/
+theorem strahler_ignored_takes_parent (t : Table) (g : Bool) (ign : List Int) (i l s : Int)
+    (h1 : chainLeaf t (t.length + 1) i = some l) (h2 : ign.contains l = true) (h3 : stopAbove t l = some s) :
+    strahler t g ign i = strahlerRaw t g ign (t.length + 1) s :=
+  strahler_of_ignored t g ign h1 h2 h3
+
+theorem strahler_ignored_contributes_zero (t : Table) (g : Bool) (ign : List Int) (l : Int) (f : Nat)
+    (hl : children t l = []) (h : ign.contains l = true) : strahlerRaw t g ign (f + 1) l = 0 := by
+  have h' : l ∈ ign := by simpa using h
+  rw [strahlerRaw_succ]; simp [hl, h']
+
+theorem strahler_not_ignored_keeps_raw (t : Table) (g : Bool) (ign : List Int) (i : Int)
+    (h : ∀ l, chainLeaf t (t.length + 1) i = some l → ign.contains l = false) :
+    strahler t g ign i = strahlerRaw t g ign (t.length + 1) i :=
+  strahler_of_not_ignored t g ign h
+
+/-- In a well-formed forest the "parent branch" of a non-root node exists: a branch point or root among
+its proper ancestors, reached through unbranched non-root nodes only. -/
+theorem parent_branch_exists (t : Table) (hw : WF t) (n : Node) (hn : n ∈ t) (hp : ¬ n.parent < 0) :
+    ∃ mid s, stopAbove t n.id = some s ∧ isBranchOrRoot t s = true ∧
+      rootPath t n.id = (n.id :: mid) ++ rootPath t s ∧ ∀ x ∈ mid, isBranchOrRoot t x = false :=
+  stopAbove_spec hw hn hp
+
+/-! ### flow centralities -/
+
+/-- **Synapse flow centrality counts paths.**  For every node `n` of a well-formed forest the formula
+`(total_post − distal_post)·distal_pre` (totals per tree) equals the number of (postsynapse,
+presynapse) pairs whose tree path runs through `n` on its *descending* leg (centrifugal: enters `n`
+from its parent); `distal_post·(total_pre − distal_pre)` the number of pairs whose path runs through
+`n` on its *ascending* leg (centripetal: leaves `n` towards its parent); `sum` adds both.  Pairs in
+different trees have no path and are not counted. -/
+theorem flow_counts_paths (t : Table) (hw : WF t) (m : Mode) (pre post : List Int) (n : Int) :
+    sfcRaw t true m pre post n = pathCount t m pre post n :=
+  (pathCount_eq hw m pre post n).symm
+
+/-- The count formulas themselves, as numbers of pairs (`a` post, `b` pre). -/
+theorem flow_count_formula (t : Table) (hw : WF t) (pre post : List Int) (n : Int) :
+    centrifugal t true pre post n =
+      ((product post pre).filter fun p => (sameTree t p.1 n && !isDistal t n p.1) && isDistal t n p.2).length ∧
+    centripetal t true pre post n =
+      ((product post pre).filter fun p => isDistal t n p.1 && (sameTree t p.2 n && !isDistal t n p.2)).length := by
+  constructor
+  · rw [count_product (fun a => sameTree t a n && !isDistal t n a) (fun b => isDistal t n b),
+      length_filter_diff (fun a => sameTree t a n) (fun a => isDistal t n a) post
+        (fun a _ ha => sameTree_of_distal hw (isDistal_iff.mp ha))]
+    simp [centrifugal, total, treeCount, distalCount]
+  · rw [count_product (fun a => isDistal t n a) (fun b => sameTree t b n && !isDistal t n b),
+      length_filter_diff (fun a => sameTree t a n) (fun a => isDistal t n a) pre
+        (fun a _ ha => sameTree_of_distal hw (isDistal_iff.mp ha))]
+    simp [centripetal, total, treeCount, distalCount]
+
+/-- Which nodes a path runs through on its way up: exactly the ancestors-or-self of the start that are
+not ancestors-or-self of the end (same tree) — and they do lie on the explicit tree path. -/
+theorem path_leg_characterisation (t : Table) (hw : WF t) (a b n : Int) :
+    (n ∈ legUp t a b ↔ n ∈ rootPath t a ∧ n ∉ rootPath t b ∧ sameTree t b n = true) ∧
+    (∀ p, treePath t a b = some p → (n ∈ legUp t a b ∨ n ∈ legUp t b a) → n ∈ p) :=
+  ⟨mem_legUp_iff hw a b n, fun _ h hn => legUp_sub_treePath h hn⟩
+
+/-- **Forks take their largest child's value** (the value replaces the fork's own formula value). -/
+theorem fork_takes_max_child (t : Table) (pt : Bool) (m : Mode) (pre post : List Int) (n : Int) (h : isFork t n = true) :
+    sfc t pt m pre post n = maxList ((children t n).map (sfcRaw t pt m pre post)) ∧
+    (∀ c ∈ children t n, sfcRaw t pt m pre post c ≤ sfc t pt m pre post n) ∧
+    (∃ c ∈ children t n, sfc t pt m pre post n = sfcRaw t pt m pre post c) := by
+  have e : sfc t pt m pre post n = maxList ((children t n).map (sfcRaw t pt m pre post)) := by
+    unfold sfc; rw [if_pos h]
+  refine ⟨e, ?_, ?_⟩
+  · intro c hc
+    rw [e]; exact le_maxList (List.mem_map.mpr ⟨c, hc, rfl⟩)
+  · have hne : (children t n).map (sfcRaw t pt m pre post) ≠ [] := by
+      simpa using children_ne_nil_of_isFork h
+    obtain ⟨c, hc, hv⟩ := List.mem_map.mp (maxList_mem hne)
+    exact ⟨c, hc, by rw [e, hv]⟩
+
+theorem nonfork_keeps_formula (t : Table) (pt : Bool) (m : Mode) (pre post : List Int) (n : Int) (h : isFork t n = false) :
+    sfc t pt m pre post n = sfcRaw t pt m pre post n := by
+  unfold sfc; simp [h]
+
+/-- **Meaning of the checker run on navis' column**: accepted iff every row carries the path count
+(forks: the largest child's path count), i.e. the model value with per-tree totals. -/
+theorem flow_checker_sound (t : Table) (hw : WF t) (m : Mode) (pre post : List Int) (v : Int → Nat) :
+    sfcOKB t m pre post v = true ↔ ∀ r ∈ t, v r.id = sfc t true m pre post r.id := by
+  unfold sfcOKB
+  rw [List.all_eq_true]
+  constructor
+  · intro h r hr
+    have := h r hr
+    simp only [beq_iff_eq] at this
+    rw [this, sfcSpec_eq hw]
+  · intro h r hr
+    simp only [beq_iff_eq]
+    rw [h r hr, sfcSpec_eq hw]
+
+/-- Leaf ("tip-to-tip") flow: the formula `(total_leafs − distal)·distal` of `flow_centrality` is the
+number of ordered leaf pairs whose path leaves `n` towards its parent (totals per tree).
+`_partial`: navis evaluates it at branch points only and lets terminal twigs carry 0, see
+`known_findings/C17.json`; the theorem is about the formula. -/
+theorem flow_centrality_counts_tip_pairs_partial (t : Table) (hw : WF t) (n : Int) :
+    leafFormula t true n = pathsUp t (Flow.leafIds t) (Flow.leafIds t) n := by
+  rw [pathsUp_eq hw]
+  unfold leafFormula centripetal
+  exact Nat.mul_comm _ _
+
+/-- Bending flow at a fork is the number of (child pair, synapse pair) incidences: a postsynapse below
+one child and a presynapse below another. -/
+theorem bending_counts_pairs (t : Table) (pre post : List Int) (b : Int) :
+    bendAt t pre post b = bendPairs t pre post b := bendAt_eq_bendPairs t pre post b
+
+/-! ### tortuosity -/
+
+/-- **Tortuosity is never below 1** (squared form: chord² ≤ arc²) for every small segment of a
+well-formed skeleton with exact integer edge lengths — the triangle inequality. -/
+theorem tortuosity_ge_one (t : Table) (hw : WF t) (hex : exactEdgesB t = true) (s : List Int) (hs : s ∈ smallSegments t) :
+    chordSq t s ≤ ((arcLen t s : Nat) : Int) * (arcLen t s : Nat) :=
+  chordSq_le_arcSq hex s (smallSegments_linked hw s hs)
+
+/-- The same for any chain of points whose consecutive distances are *at most* the given lengths. -/
+theorem arc_ge_chord (pos : Int → P3) (len : Int → Int → Nat) (a z : Int) (rest : List Int)
+    (h : edgesWithin pos len (a :: rest)) (hz : (a :: rest).getLast? = some z) :
+    sqd (pos a) (pos z) ≤ ((pathLen len (a :: rest) : Nat) : Int) * (pathLen len (a :: rest) : Nat) :=
+  chord_le_arc pos len rest a z h hz
+
+/-- **Straight segments have tortuosity exactly 1**: consecutive points advance by natural multiples of
+one direction of integer length. -/
+theorem tortuosity_straight_eq_one (pos : Int → P3) (len : Int → Int → Nat) (d : P3) (m : Nat)
+    (hd : d.1 * d.1 + d.2.1 * d.2.1 + d.2.2 * d.2.2 = (m : Int) * m) (a z : Int) (rest : List Int)
+    (hs : straight pos len d m (a :: rest)) (hz : (a :: rest).getLast? = some z) :
+    sqd (pos a) (pos z) = ((pathLen len (a :: rest) : Nat) : Int) * (pathLen len (a :: rest) : Nat) :=
+  chord_eq_arc_of_straight pos len d m hd rest a z hs hz
+
+/-! ### segregation index -/
+
+/-- **Exact cases** of the segregation index, for every entropy function `H` that does not vanish on
+(0,1): 0 when only one kind of synapse exists; exactly 1 when no fragment mixes the two kinds; exactly
+0 when every non-empty fragment has the neuron's overall mixture.  (The general bound `0 ≤ · ≤ 1` is
+Jensen's inequality for the concave binary entropy: tested, not proved.) -/
+theorem segregation_bounds_partial (H : Rat → Rat) (fs : List Frag) (hp : totPre fs ≠ 0) (hq : totPost fs ≠ 0) :
+    ((∀ f ∈ fs, f.pre = 0 ∨ f.post = 0) → segIdx H fs = some 1) ∧
+    (H ((totPost fs : Rat) / ((totPre fs + totPost fs : Nat) : Rat)) ≠ 0 →
+      (∀ f ∈ fs, f.tot ≠ 0 → (f.post : Rat) / (f.tot : Rat) = (totPost fs : Rat) / ((totPre fs + totPost fs : Nat) : Rat)) →
+      segIdx H fs = some 0) :=
+  ⟨segIdx_separated H fs hp hq, segIdx_identical H fs hp hq⟩
+
+theorem segregation_one_kind_zero (H : Rat → Rat) (fs : List Frag) (htot : totPre fs + totPost fs ≠ 0)
+    (h : totPre fs = 0 ∨ totPost fs = 0) : segIdx H fs = some 0 := segIdx_one_kind H fs htot h
+
+/-- The driver's exact classification is sound. -/
+theorem segregation_exact_sound (H : Rat → Rat) (hH : ∀ p : Rat, 0 < p → p < 1 → H p ≠ 0) (fs : List Frag) (k : Nat)
+    (h : segExact fs = some k) : segIdx H fs = some (k : Rat) := segExact_sound H hH fs k h
+
+/-! ### Non-vacuity: concrete inputs meet the hypotheses -/
+
+/-- forking root 1 (children 2, 6), fork 2 (children 3, 4), chain 3–5; straight integer edges. -/
+def ex : Table := [⟨1, -1, 0, 0, 0, .root⟩, ⟨2, 1, 3, 0, 0, .branch⟩, ⟨3, 2, 6, 0, 0, .slab⟩, ⟨4, 2, 3, 4, 0, .end_⟩,
+  ⟨5, 3, 8, 0, 0, .end_⟩, ⟨6, 1, 0, 0, 2, .end_⟩]
+def exPre : List Int := [5, 5, 3, 1]
+def exPost : List Int := [4, 6, 2]
+/-- two trees -/
+def exF : Table := [⟨1, -1, 0, 0, 0, .root⟩, ⟨2, 1, 1, 0, 0, .end_⟩, ⟨0, -1, 5, 0, 0, .root⟩, ⟨7, 0, 5, 1, 0, .end_⟩]
+
+example : wfB ex = true ∧ wfB exF = true := by decide
+example : WF ex := wfB_sound (by decide)
+example : (ids ex).map (strahler ex false []) = [2, 2, 1, 1, 1, 1] := by decide
+example : (ids ex).map (strahler ex true []) = [3, 2, 1, 1, 1, 1] := by decide
+example : strahlerOKB ex false (strahler ex false []) = true := by decide
+example : strahlerOKB ex false (fun i => if i = 1 then 1 else strahler ex false [] i) = false := by decide
+-- ignored twig 4 takes the index of fork 2; the fork no longer sees it
+example : chainLeaf ex (ex.length + 1) 4 = some 4 ∧ stopAbove ex 4 = some 2 ∧
+    (ids ex).map (strahler ex false [4]) = [2, 1, 1, 1, 1, 1] := by decide
+example : (ids ex).map (sfc ex true .centrifugal exPre exPost) = [0, 9, 9, 0, 6, 0] := by decide
+example : (ids ex).map (sfc ex true .centripetal exPre exPost) = [0, 4, 0, 4, 0, 4] := by decide
+example : (ids ex).map (pathCount ex .sum exPre exPost) = [0, 5, 9, 4, 6, 4] := by decide
+example : isFork ex 2 = true ∧ isFork ex 1 = false ∧ sfcOKB ex .sum exPre exPost (sfc ex true .sum exPre exPost) = true := by decide
+example : treePath ex 4 5 = some [4, 2, 3, 5] ∧ legUp ex 5 4 = [5, 3] := by decide
+-- pairs in different trees are not counted
+example : (ids exF).map (sfc exF true .centrifugal [2] [1, 0]) = [0, 1, 0, 0] ∧
+    (ids exF).map (sfc exF false .centrifugal [2] [1, 0]) = [1, 2, 0, 0] := by decide
+example : (ids ex).map (bendingFlow ex exPre exPost) = [3, 3, 3, 3, 3, 3] ∧ bendPairs ex exPre exPost 2 = 3 := by decide
+example : exactEdgesB ex = true ∧ tortParts ex = [(2, 1, 3, 9), (4, 2, 4, 16), (5, 2, 5, 25), (6, 1, 2, 4)] := by decide
+example : segExact [⟨3, 6⟩, ⟨1, 2⟩] = some 0 ∧ segExact [⟨3, 0⟩, ⟨0, 2⟩] = some 1 ∧ segExact [⟨3, 1⟩, ⟨1, 2⟩] = none := by decide
+example : straight (posOf ex) (coordLen ex) (-1, 0, 0) 1 [5, 3, 2] :=
+  ⟨⟨2, by decide, by decide, by decide, by decide⟩, ⟨3, by decide, by decide, by decide, by decide⟩, trivial⟩
+
 end Navis.Props.C17
